@@ -78,6 +78,7 @@ type Case struct {
 	Place string            `json:"place,omitempty"` // "" (inside <div>), root, pre (inside <pre>), slot, slot#, tplfor, sloop, sloop#, stwice, sdloop, sdplain
 	Attrs []Attr            `json:"attrs"`
 	Data  map[string]vals.V `json:"data,omitempty"`
+	After string            `json:"after,omitempty"` // "", pool, tpl: a failing variant is rendered first (after_test.go)
 }
 
 const (
@@ -764,12 +765,36 @@ func leaky(name string) bool {
 
 func render(c Case) (string, error) {
 	page, files := c.source()
+	ctx := context.Background()
+	mk := func() vuego.Template {
+		if files != nil {
+			return vuego.NewFS(memfs.FromMap(files), vuego.WithFuncs(failFuncs)).Load("page.vuego").Fill(c.goData())
+		}
+		return vuego.New(vuego.WithFuncs(failFuncs)).Fill(c.goData())
+	}
+	after := c.After
+	if after == "tpl" && c.dir("v-once") {
+		after = "pool" // what v-once remembers on one Template object across renders is C16's subject
+	}
+	var t vuego.Template
+	switch after {
+	case "pool":
+		var sink bytes.Buffer
+		_ = mk().RenderString(ctx, &sink, c.failSource()) // expected to fail; what it returns is not this property's subject
+		t = mk()
+	case "tpl":
+		t = mk()
+		var sink bytes.Buffer
+		_ = t.RenderString(ctx, &sink, c.failSource())
+	default:
+		t = mk()
+	}
 	var buf bytes.Buffer
 	var err error
 	if files != nil {
-		err = vuego.NewFS(memfs.FromMap(files)).Load("page.vuego").Fill(c.goData()).Render(context.Background(), &buf)
+		err = t.Render(ctx, &buf)
 	} else {
-		err = vuego.New().Fill(c.goData()).RenderString(context.Background(), &buf, page)
+		err = t.RenderString(ctx, &buf, page)
 	}
 	return buf.String(), err
 }
@@ -796,7 +821,14 @@ func check(c Case) error {
 		return fmt.Errorf("output of %s does not parse: %v", page, err)
 	}
 	fail := func(format string, a ...any) error {
-		return fmt.Errorf("%s\n  template: %s\n  data: %s\n  output: %s", fmt.Sprintf(format, a...), page, dataString(c.Data), strings.TrimSpace(out))
+		pre := ""
+		if c.After != "" {
+			pre = "after a failed render (" + c.After + ": " + c.failSource() + "): "
+		}
+		return fmt.Errorf("%s%s\n  template: %s\n  data: %s\n  output: %s", pre, fmt.Sprintf(format, a...), page, dataString(c.Data), strings.TrimSpace(out))
+	}
+	if c.After != "" && staleMarker(out) {
+		return fail("a value of the failed render (…-STALE) shows up in the next render")
 	}
 	// nothing but the marked element may carry a directive-looking attribute
 	for _, el := range hx.Find(forest, func(n *hx.N) bool { return n.Attrs["data-m"] != "1" }) {
